@@ -970,11 +970,13 @@ def symlist_method(it, lst, name, args, kwargs, pc):
             hx = bi_hash(it, [x], {}, pc)
             dup = vc.CF
             for p, e in list(lst.elems):
-                if vc.c_is_false(vc.c_and(pc, p)):
+                q = vc.c_and(pc, p)
+                if vc.c_is_false(q):
                     continue
-                he = bi_hash(it, [e], {}, pc)
-                same_hash = it.truth(it.compare(ast.Eq, he, hx, fr, pc), fr, pc)
-                same = it.truth(it.compare(ast.Eq, e, x, fr, pc), fr, pc)
+                # (under the presence of the existing element: an absent one has no value)
+                he = bi_hash(it, [e], {}, q)
+                same_hash = it.truth(it.compare(ast.Eq, he, hx, fr, q), fr, q)
+                same = it.truth(it.compare(ast.Eq, e, x, fr, q), fr, q)
                 dup = vc.c_or(dup, vc.c_and(p, vc.c_and(same_hash, same)))
             symlist_append(it, lst, x, vc.c_and(it.live(fr, pc), vc.c_not(dup)))
             return None
